@@ -562,7 +562,9 @@ def bci_tolerance(theta, expected):
     return 1e-9 * np.maximum(1.0, np.abs(expected)) + 4e-14 * n * rng_
 
 
-def install_bci(sess):
+def install_bci(sess, keep=False):
+    sess.bci_log = []
+    sess.bci_keep = keep
     import importlib
     import sys
 
@@ -578,6 +580,8 @@ def install_bci(sess):
         theta = np.asarray(a["theta"])
         method = a["method"]
         alpha = np.asarray(a["alpha"], dtype=float)
+        if sess.bci_keep and len(sess.bci_log) < 100_000:
+            sess.bci_log.append({"theta": theta, "theta_hat": a["theta_hat"], "alpha": a["alpha"], "method": method, "result": res})
         if theta.ndim < 1 or theta.shape[0] < 1 or theta.dtype.kind not in "fiub" or theta.size == 0:
             sess.skip("M-bci", "no replicates / non-numeric / zero-size metric")
             return
@@ -822,3 +826,196 @@ def install_gs(sess):
 
     sess.wrap(G.GroupScores, "__init__", "M-gs", ctor_post)
     sess.wrap(G.GroupScores, "__getitem__", "M-gs", getitem_post)
+
+
+# --------------------------------------------------------------------------------------
+# M-roc: roc() operating points (C15)
+
+X_AXES = ["fnr", "fpr", "tnr", "tpr", "far", "frr", "tar", "trr"]
+
+
+def judge_roc(sess, scores, a, r, monitor="M-roc"):
+    s = scores
+    if len(s.pos) == 0 or len(s.neg) == 0 or not finite_arr(s.pos) or not finite_arr(s.neg):
+        sess.skip(monitor, "empty class or non-finite")
+        return
+    xa = a.get("x_axis", "fpr")
+    sup_t, sup_fnr, sup_fpr = a.get("thresholds"), a.get("fnr"), a.get("fpr")
+    nbp = a.get("nb_points", 100)
+    sc, ec = cfg_of(s)
+    sig = (sc, ec, xa, sup_t is not None, sup_fnr is not None, sup_fpr is not None, "None" if nbp is None else ("<=3" if nbp <= 3 else ">3"),
+           s.nb_easy_pos > 0, s.nb_easy_neg > 0)
+
+    def w(**kw):
+        pos, neg = src_lists(s)
+        d = {"pos": pos, "neg": neg, "easy": [int(s.nb_easy_pos), int(s.nb_easy_neg)], "cfg": [sc, ec], "x_axis": xa, "nb_points": nbp,
+             "supplied_thresholds": None if sup_t is None else np.asarray(sup_t), "supplied_fnr": None if sup_fnr is None else np.asarray(sup_fnr),
+             "supplied_fpr": None if sup_fpr is None else np.asarray(sup_fpr), "curve_thresholds": r.thresholds, "curve_fnr": r.fnr, "curve_fpr": r.fpr}
+        d.update(kw)
+        return lambda: d
+
+    C = lambda ok, what, key: sess.check(monitor, bool(ok), what, w(), sig=sig, key=key)  # noqa: E731
+    if not C(len(r.fnr) == len(r.fpr) == len(r.thresholds), "fnr, fpr and thresholds differ in length", "roc-len"):
+        return
+    C(np.array_equal(r.fnr, s.fnr(r.thresholds)) and np.array_equal(r.fpr, s.fpr(r.thresholds)), "curve rates are not the object's rates at the curve thresholds", "roc-rates")
+    x = np.asarray(getattr(r, xa))
+    C(np.all(np.diff(x) >= 0), "x-axis metric is not non-decreasing along the curve", "roc-mono")
+    tset = set(np.asarray(r.thresholds, dtype=float).tolist())
+    if sup_t is not None:
+        C(set(np.asarray(sup_t, dtype=float).reshape(-1).tolist()) <= tset, "a supplied threshold is missing from the curve", "roc-has-thr")
+    if sup_fnr is not None:
+        C(set(np.atleast_1d(np.asarray(s.threshold_at_fnr(np.asarray(sup_fnr)), dtype=float)).tolist()) <= tset, "threshold of a supplied FNR is missing from the curve", "roc-has-fnr")
+    if sup_fpr is not None:
+        C(set(np.atleast_1d(np.asarray(s.threshold_at_fpr(np.asarray(sup_fpr)), dtype=float)).tolist()) <= tset, "threshold of a supplied FPR is missing from the curve", "roc-has-fpr")
+    if sup_t is None and sup_fnr is None and sup_fpr is None and a.get("_count", True):
+        want = nbp if nbp is not None else len(s.pos) + len(s.neg)
+        C(len(r.thresholds) == want, "curve does not have the requested number of points", "roc-npoints")
+    C(np.array_equal(r.tpr, 1.0 - r.fnr) and np.array_equal(r.tnr, 1.0 - r.fpr) and np.array_equal(r.far, r.fpr) and np.array_equal(r.frr, r.fnr)
+      and np.array_equal(r.tar, r.tpr) and np.array_equal(r.trr, r.tnr), "derived views are not the complements/aliases of fnr/fpr", "roc-views")
+
+
+def install_roc(sess):
+    import sys
+
+    import score_analysis
+
+    RC = sys.modules["score_analysis.roc_curve"]
+
+    def post(snap, args, kwargs, res):
+        a = dict(kwargs)
+        judge_roc(sess, args[0] if args else a.pop("scores"), a, res)
+
+    sess.wrap(RC, "roc", "M-roc", post)
+    sess.wrap(score_analysis, "roc", "M-roc", post)  # name bound at import of the package
+
+
+# --------------------------------------------------------------------------------------
+# M-band: ROC confidence bands (C16). Needs install_bs(keep=True) to see the samples drawn.
+
+
+def rule_of_three(p, ci, alpha, n):
+    out = [list(map(float, row)) for row in ci]
+    for i, pv in enumerate(p):
+        if pv == 0.0:
+            out[i] = [0.0, 1.0 - math.pow(alpha, 1.0 / n)]
+        elif pv == 1.0:
+            out[i] = [math.pow(alpha, 1.0 / n), 1.0]
+    return out
+
+
+def band_metric(x, fnr, fpr):
+    return np.stack([x.fnr(x.threshold_at_fpr(fpr)), x.fpr(x.threshold_at_fnr(fnr))], axis=0)
+
+
+def install_band(sess):
+    import importlib
+    import sys
+
+    import score_analysis
+
+    RC = sys.modules["score_analysis.roc_curve"]
+    importlib.import_module("score_analysis.experimental.roc_ci")
+    EX = sys.modules["score_analysis.experimental.roc_ci"]
+    EXP = sys.modules["score_analysis.experimental"]
+    S = lib()
+
+    def in_scope(s, a):
+        alpha = a.get("alpha", 0.05)
+        return (len(s.pos) > 0 and len(s.neg) > 0 and finite_arr(s.pos) and finite_arr(s.neg) and isinstance(alpha, float) and 0.0 < alpha < 1.0)
+
+    def make(name):
+        def pre(args, kwargs):
+            return len(sess.bs_log), len(sess.bci_log)
+
+        def post(marks, args, kwargs, r):
+            n0, c0 = marks
+            a = dict(kwargs)
+            s = args[0] if args else a.pop("scores")
+            if not in_scope(s, a):
+                sess.skip("M-band", "out of scope")
+                return
+            alpha = a.get("alpha", 0.05)
+            config = a.get("config", S.DEFAULT_BOOTSTRAP_CONFIG)
+            sc, ec = cfg_of(s)
+            supplied = tuple(k for k in ("fnr", "fpr", "thresholds") if a.get(k) is not None)
+            custom = callable(config.sampling_method)
+            sig = (name, sc, ec, config.bootstrap_method, "custom" if custom else config.sampling_method, config.stratified_sampling, supplied,
+                   str(a.get("nb_points")), alpha, s.nb_easy_pos > 0, s.nb_easy_neg > 0)
+
+            def w(**kw):
+                pos, neg = src_lists(s)
+                d = {"function": name, "pos": pos, "neg": neg, "easy": [int(s.nb_easy_pos), int(s.nb_easy_neg)], "cfg": [sc, ec], "alpha": alpha,
+                     "bootstrap_method": config.bootstrap_method, "sampling_method": str(config.sampling_method), "nb_samples": config.nb_samples,
+                     "supplied": {k: np.asarray(a[k]) for k in supplied}, "nb_points": a.get("nb_points"),
+                     "thresholds": r.thresholds, "fnr": r.fnr, "fpr": r.fpr, "fnr_ci": r.fnr_ci, "fpr_ci": r.fpr_ci}
+                d.update(kw)
+                return lambda: d
+
+            C = lambda ok, what, key, **kw: sess.check("M-band", bool(ok), what, w(**kw), sig=sig, key=key)  # noqa: E731
+            n = len(r.thresholds)
+            C(np.array_equal(r.fnr, s.fnr(r.thresholds)) and np.array_equal(r.fpr, s.fpr(r.thresholds)), "curve rates do not match the curve thresholds", "band-rates")
+            if not C(np.shape(r.fnr_ci) == (n, 2) and np.shape(r.fpr_ci) == (n, 2), "bands do not have shape (n, 2)", "band-shape"):
+                return
+            fc, pc = np.asarray(r.fnr_ci, dtype=float), np.asarray(r.fpr_ci, dtype=float)
+            if not C(not (np.isnan(fc).any() or np.isnan(pc).any()), "bands contain NaN", "band-nan"):
+                return
+            C(np.all(fc[:, 0] <= fc[:, 1]) and np.all(pc[:, 0] <= pc[:, 1]), "band lower limit above upper limit", "band-order")
+            if name == "roc_with_ci":
+                C(fc.min() >= 0.0 and fc.max() <= 1.0 and pc.min() >= 0.0 and pc.max() <= 1.0, "roc_with_ci band outside [0,1]", "band-range")
+            if name in ("roc_with_ci", "pointwise_band_ci"):
+                samples = [b for (src, cfg_, b) in sess.bs_log[n0:] if src is s]
+                if len(samples) != config.nb_samples:
+                    sess.check("M-band", False, "number of bootstrap samples drawn differs from nb_samples", w(drawn=len(samples)), sig=sig, key="band-nb-samples")
+                    return
+                fnr, fpr = np.asarray(r.fnr), np.asarray(r.fpr)
+                calls = sess.bci_log[c0:]
+                if not C(len(calls) == 1, "expected exactly one interval computation per call", "band-one-ci"):
+                    return
+                call = calls[0]
+                # (1) what reached the CI formula is the joint metric on the samples actually drawn, with the source's metric as estimate
+                reps = np.stack([band_metric(b, fnr, fpr) for b in samples], axis=0)  # (S, 2, n)
+                C(np.shape(call["theta"]) == reps.shape and np.array_equal(call["theta"], reps, equal_nan=True),
+                  "replicates handed to the CI formula are not [FNR at FPR, FPR at FNR] of the samples drawn", "band-replicates")
+                C(np.array_equal(np.asarray(call["theta_hat"]), band_metric(s, fnr, fpr), equal_nan=True) and call["method"] == config.bootstrap_method
+                  and call["alpha"] == alpha, "estimate/alpha/method handed to the CI formula are not those of the call", "band-estimate")
+                # (2) the formula itself is judged by M-bci on that very call; (3) from its result the bands must follow exactly
+                joint = np.asarray(call["result"], dtype=float)
+                if joint.shape != (2, n, 2) or np.isnan(joint).any():
+                    sess.skip("M-band", "pointwise interval undefined")
+                    return
+                fnr_ci = rule_of_three(fnr.tolist(), joint[0].tolist(), alpha, s.nb_all_pos)
+                fpr_ci = rule_of_three(fpr.tolist(), joint[1].tolist(), alpha, s.nb_all_neg)
+                if name == "roc_with_ci":
+                    exp_fpr_band = np.asarray(R.aggregate_rectangles(fnr.tolist(), fnr_ci, fpr_ci))
+                    exp_fnr_band = np.asarray(R.aggregate_rectangles(fpr.tolist(), fpr_ci, fnr_ci))
+                else:
+                    exp_fpr_band, exp_fnr_band = np.asarray(fpr_ci), np.asarray(fnr_ci)
+                C(np.all(np.abs(exp_fnr_band - fc) <= 1e-12) and np.all(np.abs(exp_fpr_band - pc) <= 1e-12),
+                  "bands differ from the envelope of pointwise rectangles (bootstrap interval; rule of three iff the rate is exactly 0 or 1)",
+                  "band-closed-form", expected_fnr_band=exp_fnr_band, expected_fpr_band=exp_fpr_band)
+
+        def on_exc(marks, args, kwargs, exc):
+            a = dict(kwargs)
+            s = args[0] if args else a.pop("scores", None)
+            if s is None or not in_scope(s, a):
+                sess.skip("M-band", "raised out of scope")
+                return
+            if name == "fixed_width_band_ci" and (any(a.get(k) is not None for k in ("fnr", "fpr", "thresholds")) or (a.get("nb_points") is not None and a.get("nb_points") < 3)):
+                sess.skip("M-band", "fixed_width_band_ci on a support not spanning the curve")
+                return
+            pos, neg = src_lists(s)
+            sess.check("M-band", False, f"{name} raised on documented arguments",
+                       lambda: {"function": name, "pos": pos, "neg": neg, "nb_hard_pos": len(pos), "nb_hard_neg": len(neg),
+                                "easy": [int(s.nb_easy_pos), int(s.nb_easy_neg)], "cfg": list(cfg_of(s)),
+                                "kwargs": {k: (np.asarray(v) if k in ("fnr", "fpr", "thresholds") and v is not None else str(v)) for k, v in a.items()}, "exc": repr(exc)},
+                       key="band-raise-" + name)
+
+        return pre, post, on_exc
+
+    pre, post, on_exc = make("roc_with_ci")
+    sess.wrap(RC, "roc_with_ci", "M-band", post, pre=pre, on_exc=on_exc)
+    sess.wrap(score_analysis, "roc_with_ci", "M-band", post, pre=pre, on_exc=on_exc)
+    for nm in ("pointwise_band_ci", "simultaneous_joint_region_ci", "fixed_width_band_ci"):
+        pre, post, on_exc = make(nm)
+        sess.wrap(EX, nm, "M-band", post, pre=pre, on_exc=on_exc)
+        sess.wrap(EXP, nm, "M-band", post, pre=pre, on_exc=on_exc)
